@@ -126,7 +126,7 @@ impl Property for C10 {
         "namespace-well-formed documents from a proptest gene vector with declaration layouts forced to be interesting (the same prefix re-bound deeper, default namespace declared, \
          undeclared with xmlns=\"\" and re-declared along a path, prefixed and unprefixed attributes under a default namespace, two prefixes for one URI, xml:lang/xml:space), \
          rendered twice: as generated and with every prefix renamed consistently. Oracle: own scope computation on the abstract document. Direct: in_scope_namespace() of every \
-         element as a set of (prefix, URI) incl. xml, as_expanded_name() of every element and attribute. Through XPath with fresh caller prefixes: local-name(), namespace-uri(), \
+         element as a set of (prefix, URI) incl. xml, as_expanded_name() of every element and attribute. Through XPath with fresh caller prefixes, and again with the document's own prefixes bound by the caller to other URIs: local-name(), namespace-uri(), \
          name() of every element addressed by a positional path, count(//P:l), count(//@P:l), count(//P:*), count(//l) for every expanded name in the document against the model's \
          counts. Metamorphic: the renamed document gives the same answers to the same queries. Non-trivial = the document has shadowing, an undeclaration or a prefixed attribute \
          and at least one count is non-zero; distinct by text."
@@ -280,40 +280,78 @@ impl Property for C10 {
                 *attr_counts.entry((a["uri"].as_str().map(|s| s.to_string()), a["local"].as_str().unwrap_or("").to_string())).or_insert(0) += 1;
             }
         }
-        let mut queries: Vec<(String, usize)> = vec![];
-        for ((u, l), n) in &elem_counts {
-            let test = match u {
-                Some(u) => format!("{}:{}", pfx(u), l),
-                None => l.clone(),
-            };
-            queries.push((format!("count(//{})", test), *n));
-            // the unprefixed test must NOT match elements in a namespace (no default namespace in XPath 1.0)
-            if u.is_some() {
-                let unp = elem_counts.get(&(None, l.clone())).copied().unwrap_or(0);
-                queries.push((format!("count(//{})", l), unp));
-            }
-        }
-        for ((u, l), n) in &attr_counts {
-            let test = match u {
-                Some(u) => format!("{}:{}", pfx(u), l),
-                None => l.clone(),
-            };
-            queries.push((format!("count(//@{})", test), *n));
-        }
-        for (u, n) in &uri_counts {
-            queries.push((format!("count(//{}:*)", pfx(u)), *n));
-        }
-        let mut nonzero = false;
-        for (q, n) in &queries {
-            if *n > 0 {
-                nonzero = true;
-            }
-            for (which, d) in [("original", &doc), ("renamed", &doc2)] {
-                let got = query(d, q, &ns);
-                if got != n.to_string() {
-                    let class = if q.contains("@") { "attribute-name-test" } else if q.contains(":*") { "ns-wildcard-test" } else { "element-name-test" };
-                    fail!(format!("c10.xpath.{}{}", class, if which == "renamed" { ".renamed-document" } else { "" }), format!("{} = {} on the {} document, expected {} (bindings {:?})", q, got, which, n, ns));
+        // Two caller binding sets: fresh prefixes, and the document's own prefixes bound to *other* URIs than
+        // the document binds them to (a name test must go by the caller's binding, never by the spelling).
+        let mut doc_prefixes: Vec<String> = vec![];
+        for f in &facts {
+            for q in std::iter::once(f["qname"].as_str().unwrap_or("")).chain(f["attrs"].as_array().map(|a| a.iter().map(|x| x["qname"].as_str().unwrap_or("")).collect::<Vec<_>>()).unwrap_or_default()) {
+                if let Some((p, _)) = q.split_once(':') {
+                    if p != "xml" && !doc_prefixes.contains(&p.to_string()) {
+                        doc_prefixes.push(p.to_string());
+                    }
                 }
+            }
+            for (p, _) in f["scope"].as_object().map(|m| m.iter().collect::<Vec<_>>()).unwrap_or_default() {
+                if p != "xml" && p != "xmlns" && !doc_prefixes.contains(p) {
+                    doc_prefixes.push(p.clone());
+                }
+            }
+        }
+        doc_prefixes.sort();
+        let ns_collide: Vec<(String, String)> = uris
+            .iter()
+            .enumerate()
+            .map(|(i, u)| {
+                let p = if doc_prefixes.is_empty() { format!("z{}", i) } else if i < doc_prefixes.len() { doc_prefixes[(i + 1) % doc_prefixes.len()].clone() } else { format!("z{}", i) };
+                (p, u.clone())
+            })
+            .collect();
+        let mut nonzero = false;
+        for (set_name, bindings) in [("fresh", &ns), ("document-prefixes-rebound", &ns_collide)] {
+            if set_name != "fresh" && doc_prefixes.is_empty() {
+                continue;
+            }
+            let pfx = |u: &str| -> String { bindings.iter().find(|(_, x)| x == u).map(|(p, _)| p.clone()).unwrap_or_default() };
+            let mut queries: Vec<(String, usize)> = vec![];
+            for ((u, l), n) in &elem_counts {
+                let test = match u {
+                    Some(u) => format!("{}:{}", pfx(u), l),
+                    None => l.clone(),
+                };
+                queries.push((format!("count(//{})", test), *n));
+                // the unprefixed test must NOT match elements in a namespace (no default namespace in XPath 1.0)
+                if u.is_some() {
+                    let unp = elem_counts.get(&(None, l.clone())).copied().unwrap_or(0);
+                    queries.push((format!("count(//{})", l), unp));
+                }
+            }
+            for ((u, l), n) in &attr_counts {
+                let test = match u {
+                    Some(u) => format!("{}:{}", pfx(u), l),
+                    None => l.clone(),
+                };
+                queries.push((format!("count(//@{})", test), *n));
+            }
+            for (u, n) in &uri_counts {
+                queries.push((format!("count(//{}:*)", pfx(u)), *n));
+            }
+            for (q, n) in &queries {
+                if *n > 0 {
+                    nonzero = true;
+                }
+                for (which, d) in [("original", &doc), ("renamed", &doc2)] {
+                    let got = query(d, q, bindings);
+                    if got != n.to_string() {
+                        let class = if q.contains("@") { "attribute-name-test" } else if q.contains(":*") { "ns-wildcard-test" } else { "element-name-test" };
+                        fail!(
+                            format!("c10.xpath.{}{}{}", class, if which == "renamed" { ".renamed-document" } else { "" }, if set_name == "fresh" { "" } else { ".caller-reuses-document-prefixes" }),
+                            format!("{} = {} on the {} document, expected {} (caller bindings {:?})", q, got, which, n, bindings)
+                        );
+                    }
+                }
+            }
+            if set_name != "fresh" {
+                obs.label("caller-reuses-document-prefixes");
             }
         }
         if !nonzero {
